@@ -24,6 +24,13 @@ use std::time::Instant;
 
 pub const VERIF_ROOT: &str = "/verif";
 
+/// Where evidence/ and replays/ are written (default `/verif`; the mutation
+/// runner redirects it so that runs against a patched scratch copy never touch
+/// the real evidence).
+pub fn out_root() -> String {
+    std::env::var("VERIF_OUT_DIR").unwrap_or_else(|_| VERIF_ROOT.to_string())
+}
+
 #[derive(Clone, Copy, PartialEq, Eq, Debug)]
 pub enum Tier {
     Quick,
@@ -255,7 +262,7 @@ impl Ctx {
 
         // replay files for fresh violations
         let mut lines = Vec::new();
-        let dir = format!("{VERIF_ROOT}/replays/{}", self.id);
+        let dir = format!("{}/replays/{}", out_root(), self.id);
         if !fresh.is_empty() && !replaying {
             let _ = std::fs::remove_dir_all(&dir);
             std::fs::create_dir_all(&dir).ok();
@@ -326,8 +333,8 @@ impl Ctx {
             "violations": fresh.len(),
         });
         if !replaying {
-            let path = format!("{VERIF_ROOT}/evidence/{}.json", self.id);
-            std::fs::create_dir_all(format!("{VERIF_ROOT}/evidence")).ok();
+            let path = format!("{}/evidence/{}.json", out_root(), self.id);
+            std::fs::create_dir_all(format!("{}/evidence", out_root())).ok();
             std::fs::write(&path, serde_json::to_string_pretty(&evidence).unwrap() + "\n")
                 .unwrap_or_else(|e| machinery(&format!("cannot write {path}: {e}")));
         }
